@@ -116,7 +116,7 @@ class ClaimNet:
 
     def lost_address(self, i):
         """reference: True if CA i's most recent claim was for address X and a claim for X by a lower NAME has
-        been delivered to its stack since"""
+        been delivered to (= handled to the end by) its stack since"""
         last = None
         for (t, idx, si, sa, v) in self.claims():
             if si == i:
@@ -125,7 +125,7 @@ class ClaimNet:
             last = (-1, self.sc['cas'][i]['addr'])      # holds its configured address without ever having claimed it
         if last is None or last[1] == 254:
             return True
-        got = set(k for (_t, k) in self.stack_of[i].rx_log)
+        got = self.stack_of[i].rx_done          # handled to the end: a handler that waits for the claim lock has not told the CA yet
         for (t, idx, si, sa, v) in self.claims():
             same_ecu = si < len(self.stack_of) and self.stack_of[si] is self.stack_of[i]
             if si != i and idx > last[0] and sa == last[1] and v < self.names[i] and (idx in got or same_ecu):
@@ -202,6 +202,10 @@ class ClaimNet:
                 if frames and self.lost_address(i):
                     self.probe_problems.append("%s sent application data from address %d after the CA had lost it to a lower NAME"
                                                % (name, frames[0].sa))
+                mine = [sa for (_t, _idx, si, sa, _v) in self.claims() if si == i]
+                if frames and mine and frames[0].sa != mine[-1]:
+                    self.probe_problems.append("%s sent application data from address %d, but the CA's most recent address claim on the bus is for %d"
+                                               % (name, frames[0].sa, mine[-1]))
         if (ca.state, ca.device_address) != st_before:
             self.probe_problems.append("HARNESS: probe changed the claim state")
 
@@ -320,7 +324,8 @@ def csig(probs):
 def preempt_worker(item):
     """the job thread of one ECU is held at every source line it executes in controller_application.py (the claim timer
     callback) while the contending claim of another ECU is handled by its receive thread"""
-    _k, base, stack, seed = item
+    _k, base, stack, seed = item[:4]
+    probes = len(item) > 4 and item[4]          # C13: judge the entry-point probes of the run instead of the claim outcome
     acc = Acc()
     counts = []
     for _ in range(2):
@@ -336,16 +341,19 @@ def preempt_worker(item):
     for pt in range(1, counts[0] + 1):
         for hold in (0.002, 0.006):
             sc = dict(base, preempt={'stack': stack, 'point': pt, 'hold': hold})
-            net = ClaimNet(sc, (), seed)
+            net = ClaimNet(sc, (), seed, probes)
             try:
                 probs = net.run()
+                if probes:
+                    probs = net.probe_problems[:]
+                    acc.add('entry_point_probes', net.nprobes)
                 where = net.pre.where
                 outcome = ([(f.src, f.can_id) for f in net.bus.log], net.snapshot())
             finally:
                 net.close()
             acc.case(repr(sorted(sc.items(), key=repr)), nontrivial=True, outcome=outcome)
             if probs:
-                acc.violation(csig(probs), sc, None, probs[:3] + ["job thread held at %s" % where])
+                acc.violation(item[5](probs) if len(item) > 5 else csig(probs), sc, [], probs[:3] + ["job thread held at %s" % where])
     acc.sample({'scenario': base, 'preempted_stack': stack, 'line_events': counts[0]})
     return acc
 
@@ -504,7 +512,7 @@ def worker_chunk(chunk):
 
 
 def replay(rec, prop=PROP, probes=False):
-    points, probs, outcome, trace, _n = run_one(rec['scenario'], [tuple(c) for c in rec['choices']],
+    points, probs, outcome, trace, _n = run_one(rec['scenario'], [tuple(c) for c in (rec['choices'] or [])],
                                                 rec.get('seed', 0), keep=True, probes=probes)
     print("\n".join(trace))
     if probs:
